@@ -98,12 +98,18 @@ func VX_C24_remove_append() {
 func VX_C24_concat_repeat() {
 	n := vxSplit("len", 3)
 	m := vxSplit("len2", 3)
-	l, model := vxList("e", n, 0)
+	l, model := vxList("e", n, vxSplit("extra", 3))
 	o, model2 := vxList("f", m, 1)
 	r, err := l.Concat(Ref(o))
 	vxAssert(err.IsUndefined(), "concat/no-error")
-	vxAssert(vxListIs(r, append(append([]int64{}, model...), model2...)), "concat/sequence")
+	want0 := append(append([]int64{}, model...), model2...)
+	vxAssert(vxListIs(r, want0), "concat/sequence")
 	vxAssert(vxListIs(l, model) && vxListIs(o, model2), "concat/operands-unchanged")
+	// the result is a fresh list: a later append to the left operand does not show through it
+	fx := vxInt64("fresh")
+	l.Append(SmallInt(fx).ToValue())
+	vxAssert(vxListIs(r, want0), "concat/result-independent-of-later-append-to-operand")
+	l.RemoveAt(n)
 	k := vxInt64("k")
 	vxAssume(k <= 3)
 	rep, err2 := l.Repeat(SmallInt(k).ToValue())
